@@ -9,6 +9,7 @@
 -/
 import ControlModel.Model.CmdQueue
 import ControlModel.Model.CmdHandover
+import ControlModel.Model.CmdLock
 
 namespace CmdQueue
 
@@ -78,6 +79,12 @@ inductive Ev where
   | listen (c : Nat)
   /-- a goroutine dump found the consumer goroutine of `c`'s queue there -/
   | probe (c : Nat) (w : Where)
+  /-- two identical goroutine dumps PROVE that command `c` — enqueued, its caller
+      listening — will never complete: every goroutine inside the Servent is parked,
+      per-target callers of `c`'s queue among them in `s.mu.Lock()`, the others in
+      `ProcessResponse`'s blocking hand-over, none in `RunCommand`'s select: the
+      servent mutex is held by a goroutine that can never release it -/
+  | stuck (c : Nat)
 deriving DecidableEq, Repr
 
 def isDone (c : Nat) : Ev → Bool
@@ -238,6 +245,25 @@ def qtrace (cmds : List Cmd) (qof : Nat → Nat) : QState → List QStep → Lis
   | _, [] => []
   | s, st :: rest => (emitQ cmds s st).toList ++ qtrace cmds qof (qstep cmds qof s st) rest
 
+/-! ### no command is ever wedged -/
+
+def isStuck : Ev → Bool
+  | .stuck _ => true
+  | _ => false
+
+/-- No goroutine dump ever proves a command stuck for ever. -/
+def neverStuck (evs : List Ev) : Bool := !evs.any isStuck
+
+/-- What an observer that looks for wedged commands (`look c`: a goroutine dump)
+    records in an execution of the lock layer. -/
+def emitStuck (cmds : List Cmd) (s : LState) : LStep → Option Ev
+  | .look c => if wedgedFor cmds s c then some (.stuck c) else none
+  | _ => none
+
+def stuckTrace (cfg : LockCfg) (cmds : List Cmd) (qof : Nat → Nat) : LState → List LStep → List Ev
+  | _, [] => []
+  | s, st :: rest => (emitStuck cmds s st).toList ++ stuckTrace cfg cmds qof (lstep cfg cmds qof s st) rest
+
 /-- Every command of the scenario (all are enqueued and awaited by the harness)
     completed exactly once. -/
 def onceOk (n : Nat) (evs : List Ev) : Bool :=
@@ -252,9 +278,12 @@ def finalOk (evs : List Ev) (final : List (Nat × Result)) : Bool :=
     on). Vacuous outside the property's domain (ids and per-command targets
     distinct). Every command of a scenario is enqueued and its caller listens
     sooner or later: `onceOk` demands exactly one answer for each, `handoverOk`
-    that the queue waited for the caller meanwhile. -/
+    that the queue waited for the caller meanwhile, `neverStuck` that no command was
+    found wedged behind the servent mutex (a scenario in which that is proven ends
+    there, so `onceOk` fails with it: the command never completes although its
+    caller listens). -/
 def Spec (cmds : List Cmd) (qs : List Nat) (evs : List Ev) (final : List (Nat × Result)) : Bool :=
   !wfCfg cmds || (onceOk cmds.length evs && sendsOk cmds evs && donesOk cmds [] evs && finalOk evs final &&
-    handoverOk qs evs)
+    handoverOk qs evs && neverStuck evs)
 
 end CmdQueue
